@@ -22,10 +22,18 @@ LEVEL = "model_checking"
 
 
 class _ScriptU:
+    """scripted stand-in for the generator: whatever flat primitive the draw uses returns the lattice points u = 0, 1/4, .., 1"""
+
     def __init__(self, us):
         self.us = us
+        self.calls = []
 
     def uniform(self, low=0.0, high=1.0, size=None):
+        self.calls.append("uniform")
+        return np.asarray(low, dtype=float) + (np.asarray(high, dtype=float) - np.asarray(low, dtype=float)) * np.array(self.us, dtype=float)
+
+    def random(self, size=None, dtype=np.float64, out=None):
+        self.calls.append("random")
         return np.array(self.us, dtype=float)
 
 
